@@ -302,6 +302,11 @@ def judge(res, shape, hist, kexpr, kcls, d, m, one):
         raised = None
     except Exception as e:
         raised = e
+    if repr(key) != repr(ev(kexpr)):
+        # the key is the caller's object (a list of names may be reused on another sample)
+        res.violation('key-changed:%s' % key_form(kexpr), 'indexing sample%s%s with %s changed the key object itself to %r' % (
+            shape, ''.join('[%s]' % h for h in hist), kexpr, key), one)
+        return None
     what = 'sample%s%s[%s]' % (shape, ''.join('[%s]' % h for h in hist), kexpr)
     form = 'other' if kcls == 'o' else 'grammar'
     if st[0] == 'raise':
